@@ -38,6 +38,13 @@ def run(F, rep, tier):
     c12.import_pass(F, rep)
     import c07
     c07.visit_loops_complete(F, rep)
+    # the type of a global that is still open when a function reading it is generalised stays *shared* by the instances: were it
+    # copied, a use at one type and a later definition-site refinement at another would be accepted in the order that closes the
+    # global late and rejected in the order that closes it first
+    import core
+    import c02
+    core.borrow(rep, lambda F_, r_: c02.copy_discipline(F_, r_),
+                lambda o: o["key"] in ("environment|every-variable-of-the-surroundings-is-a-start", "environment|every-reached-node-is-kept"), F)
 
 
 def dependency_visit(F, rep):
